@@ -662,6 +662,12 @@ impl Trace {
         self.emit(format!("{{\"ev\":\"tdig\",\"tid\":{},\"a\":[{},{}],\"pop\":{},\"dg\":\"{}\"}}", tid, x, y, pop, dg));
     }
 
+    /// C18: thread `tid` observed, concurrently with other threads observing OTHER states, the state
+    /// that the event on line `line` of this trace observed sequentially
+    pub fn pdig(&mut self, tid: usize, line: usize, dg: &str, pop: usize) {
+        self.emit(format!("{{\"ev\":\"pdig\",\"tid\":{},\"line\":{},\"pop\":{},\"dg\":\"{}\"}}", tid, line, pop, dg));
+    }
+
     /// C18: thread `tid` observed the shared state itself
     pub fn tdig_self(&mut self, tid: usize, dg: &str, pop: usize) {
         self.emit(format!("{{\"ev\":\"tdig\",\"tid\":{},\"a\":[-2,0],\"pop\":{},\"dg\":\"{}\"}}", tid, pop, dg));
